@@ -31,7 +31,8 @@ type Series struct {
 
 type Dataset struct {
 	Name    string   `json:"name"`
-	InOrder bool     `json:"inorder"` // written in time order (no out-of-order files)
+	InOrder bool     `json:"inorder"`        // written in time order (no out-of-order files)
+	Wide    bool     `json:"wide,omitempty"` // many short series with interleaving timestamps
 	Series  []Series `json:"series"`
 }
 
@@ -51,7 +52,8 @@ type Agg struct {
 }
 
 type Query struct {
-	Kind     string `json:"kind"` // plain | agg
+	Kind     string `json:"kind"`           // plain | agg
+	Star     bool   `json:"star,omitempty"` // SELECT * (all fields; tag columns are ignored by the canonicaliser)
 	Cols     []int  `json:"cols,omitempty"`
 	Aggs     []Agg  `json:"aggs,omitempty"`
 	HasTmin  bool   `json:"has_tmin"`
